@@ -133,6 +133,32 @@ int main()
                     std::printf("plan %s %s status %d states %ld off-manifold %ld worst %g\n", kind.c_str(), man.c_str(), (int)(ob::PlannerStatus::StatusType)st, nst, bad, worst);
                     continue;
                 }
+                if (man == "sphere" && n == 0)
+                {   // LAWS <kind> sphere 0 <seed> delta lambda tol: a scan of great-circle arcs from (1,0,0) to (cos t, sin t, 0), t = 0.05 .. 3.0:
+                    // arcs whose length is about lambda x chord exhaust the "wandered too far" budget near the end of the traversal
+                    long gok = 0, gtried = 0, gbad = 0, gstep = 0, gend = 0; double worstend = 0, worststep = 0;
+                    ob::State *a = css->allocState(), *b = css->allocState();
+                    for (int k = 5; k <= 300; ++k)
+                    {
+                        double t = 0.01 * k; Eigen::VectorXd pa(3), pb(3); pa << 1, 0, 0; pb << std::cos(t), std::sin(t), 0;
+                        a->as<ob::ConstrainedStateSpace::StateType>()->copy(pa); b->as<ob::ConstrainedStateSpace::StateType>()->copy(pb);
+                        std::vector<ob::State *> geo; ++gtried; bool ok = css->discreteGeodesic(a, b, true, &geo);
+                        if (ok && kind != "TB")
+                        {
+                            ++gok;
+                            for (std::size_t i = 0; i < geo.size(); ++i)
+                            {
+                                double vg = viol(geo[i]); if (!(vg <= tol * 1.000001)) ++gbad;
+                                if (i > 0) { double d = css->distance(geo[i - 1], geo[i]); worststep = std::max(worststep, d / (lambda * delta)); if (d > lambda * delta * (1 + 1e-9)) ++gstep; }
+                            }
+                            double de = css->distance(geo.back(), b); worstend = std::max(worstend, de / delta); if (de > delta * (1 + 1e-9)) ++gend;
+                        }
+                        for (auto *s2 : geo) css->freeState(s2);
+                    }
+                    std::printf("laws %s %s samples-off 0 near-off 0 interp-off 0 geodesics %ld/%ld geo-off %ld step-too-long %ld end-too-far %ld worst-violation 0 worst-step/bound %g worst-end/delta %g\n", kind.c_str(), man.c_str(), gok, gtried, gbad, gstep, gend, worststep, worstend);
+                    css->freeState(a); css->freeState(b);
+                    continue;
+                }
                 auto sampler = css->allocStateSampler();
                 ob::State *a = css->allocState(), *b = css->allocState(), *r = css->allocState();
                 long sbad = 0, ibad = 0, gbad = 0, gstep = 0, gend = 0, gok = 0, gtried = 0, nearbad = 0; double worst = 0, worststep = 0, worstend = 0; std::string wit;
